@@ -75,6 +75,11 @@ def kind(v):
   return d[1] if d else 'unk'
 
 
+_INDEX_ARRAY_FUNCS = frozenset(canon(x) for x in (
+    'numpy.flatnonzero', 'numpy.argsort', 'numpy.argpartition',
+    'numpy.arange', 'numpy.lexsort'))
+
+
 class FreshDomain(EventsMixin, Domain):
   name = 'fresh'
   inline_depth = 12
@@ -270,6 +275,10 @@ class FreshDomain(EventsMixin, Domain):
       cp = kwargs.get('copy')
       if cp is not None and cp.const() is False:
         return (roots(args[0]) if args else E, 'arr')
+      return FRESH_ARR
+    if dotted in _INDEX_ARRAY_FUNCS:
+      # always an (integer) ARRAY: indexing with it is fancy indexing, which
+      # copies - as a boolean mask does
       return FRESH_ARR
     if dotted.startswith(('numpy.', 'scipy.', 'sklearn.')):
       return (E, 'unk')
